@@ -409,6 +409,29 @@ func (vc *FuncVC) applyContract(st *State, reach Term, ins *ssa.Call, callee *ss
 			}
 		}
 	}
+	if vc.L.layer1 && strings.HasPrefix(name, "math/big.(*Int).") {
+		// a math/big method that writes *p writes p's words; when p is a header over the inline words of a
+		// BigInt (ghost backing(p) != 0) those are the BigInt's own words: they are unknown until updateInner
+		for _, ax := range fc.Assigns {
+			u, ok := ax.(*EUn)
+			if !ok || u.Op != "*" {
+				continue
+			}
+			pv := envPre.eval(u.X)
+			bk := vc.load(pre, "MathBig.backing", pv.T, SInt)
+			// the header keeps pointing at the same words unless math/big moved the value to storage of its own
+			nb := vc.load(st, "MathBig.backing", pv.T, SInt)
+			vc.assume(Implies(reach, Or(Eq(nb, bk), Eq(nb, IntLit(0)))))
+			for off := int64(1); off <= 2; off++ {
+				idx := vc.define("bkw", Add(bk, IntLit(off)))
+				old := vc.load(st, "cell.uint", idx, SInt)
+				fresh := vc.fresh("w_"+callee.Name(), SInt)
+				vc.assume(And(Le(IntLit(0), fresh), Lt(fresh, BigLit(pow2_64))))
+				vc.logWrite("cell.uint", idx, SInt)
+				vc.store(st, "cell.uint", idx, Ite(And(Ne(pv.T, IntLit(0)), Ne(bk, IntLit(0))), fresh, old))
+			}
+		}
+	}
 	if fc.Fresh || fc.Allocates {
 		c := vc.fresh("cnt_call", SInt)
 		vc.assume(Ge(c, st.cnt))
